@@ -29,12 +29,24 @@ fn simple_cfg() -> GenCfg {
         int_pool: ["0", "1", "2", "3", "(-1)", "7"].iter().map(|s| s.to_string()).collect(),
         float_pool: ["0.5", "1.0", "2.0", "(-1.5)"].iter().map(|s| s.to_string()).collect(),
         str_pool: ["\"a\"", "\"ab\"", "\"\""].iter().map(|s| s.to_string()).collect(),
+        empty_containers: false,
     }
 }
 
 /// error injected at one or two argument positions of a library function
-fn gen_lib_error_case(t: &mut Tape, lib: &Lib) -> ValCase {
-    let cfg = simple_cfg();
+fn usable_fns(lib: &Lib) -> Vec<usize> {
+    lib.fns
+        .iter()
+        .enumerate()
+        .filter(|(_, f)| !HANDLERS.contains(&f.name.as_str()) && !f.name.starts_with("__") && !f.params.is_empty())
+        .map(|(i, _)| i)
+        .collect()
+}
+
+/// `forced`: (function index, error position, other arguments empty containers)
+fn gen_lib_error_case(t: &mut Tape, lib: &Lib, forced: Option<(usize, usize, bool)>) -> ValCase {
+    let mut cfg = simple_cfg();
+    cfg.empty_containers = forced.map_or(false, |f| f.2);
     let usable: Vec<usize> = lib
         .fns
         .iter()
@@ -44,7 +56,10 @@ fn gen_lib_error_case(t: &mut Tape, lib: &Lib) -> ValCase {
         })
         .map(|(i, _)| i)
         .collect();
-    let fi = *t.pick(&usable);
+    let fi = match forced {
+        Some((fi, _, _)) => fi,
+        None => *t.pick(&usable),
+    };
     let sig = lib.fns[fi].clone();
     let mut g = Gen {
         lib,
@@ -63,13 +78,21 @@ fn gen_lib_error_case(t: &mut Tape, lib: &Lib) -> ValCase {
     }
     let ret = g.concretize(&sig.ret.subst(&b));
     let required = sig.params.iter().take_while(|p| p.1).count();
-    let n = required + g.t.below(sig.params.len() - required + 1);
+    let n = match forced {
+        Some((_, pos, _)) => required.max(pos + 1).min(sig.params.len()),
+        None => required + g.t.below(sig.params.len() - required + 1),
+    };
     let n = n.max(1);
     let ptypes: Vec<Ty> = sig.params[..n].iter().map(|(p, _)| g.concretize(&p.subst(&b))).collect();
     // positions that receive an error: one, sometimes two
     let uniq = g.t.u32();
-    let first = g.t.below(n);
-    let second = if n >= 2 && g.t.below(3) == 0 { Some(g.t.below(n)) } else { None };
+    let (first, second) = match forced {
+        Some((_, pos, _)) => (pos.min(n - 1), None),
+        None => {
+            let first = g.t.below(n);
+            (first, if n >= 2 && g.t.below(3) == 0 { Some(g.t.below(n)) } else { None })
+        }
+    };
     let mut prelude = String::new();
     let mut args = vec![];
     for (i, pt) in ptypes.iter().enumerate() {
@@ -366,6 +389,117 @@ fn run_catcher_case(t: &mut Tape, ctx: &mut Ctx) -> Result<CaseOutcome, HarnessE
     Ok(o)
 }
 
+/// consumers that traverse the whole stream: an element that is an error value, or a limit that
+/// trips while an element is computed, must be the outcome whichever position the element has
+const CONSUMERS: &[&str] = &[
+    "{G}.last()", "{G}.to_array()", "{G}.sum()", "{G}.len()", "{G}.max()", "{G}.min()", "{G}.contains(-5)", "{G}.mean()", "{G}.enumerate().last()",
+    "{G}.take(100).last()", "{G}.zip(count().to_generator()).last()", "{G}.reduce(0, add{int, int})", "{G}.product()", "{G}.aggregate(0, add{int, int}).last()",
+    "{G}.windows(2).last()", "{G}.distinct().last()", "{G}.chunks(2).last()", "{G}.with_count().last()", "{G}.group().last()", "{G}.to_array().len()", "{G}.skip(0).last()",
+];
+
+const SHAPES: &[(&str, &str)] = &[
+    ("mapped_generator", "range(5).to_generator().map(f)"),
+    ("chain_first_part", "range(5).to_generator().map(f).add([100, 200].to_generator())"),
+    ("chain_second_part", "[100, 200].to_generator().add(range(5).to_generator().map(f))"),
+];
+
+fn stream_cases(ctx: &mut Ctx) -> Result<Vec<CaseOutcome>, HarnessError> {
+    let mut outs = vec![];
+    for (si, (shape, gen)) in SHAPES.iter().enumerate() {
+        for (ci, cons) in CONSUMERS.iter().enumerate() {
+            // 1. an element that is an error value, at every position
+            let mut src = String::new();
+            let mut names = vec![];
+            for k in 0..5 {
+                let g = gen.replace("map(f)", &format!("map(f{k})"));
+                src.push_str(&format!("fn f{k}(x: int) -> int {{ if(x == {k}, error(\"boom{k}\"), x + 1) }}\nfn s{k}() -> bool {{ is_error({}) && get_error({}).value() == \"boom{k}\" }}\n", cons.replace("{G}", &format!("({g})")), cons.replace("{G}", &format!("({g})"))));
+                names.push(format!("s{k}"));
+            }
+            let mut job = Job::new(src.clone());
+            for n in &names {
+                job.steps.push(Step::Run { name: n.clone() });
+            }
+            let r = ctx.exec(&job)?;
+            let mut o = CaseOutcome {
+                key: fnv(format!("stream|{shape}|{cons}").as_bytes()),
+                nontrivial: true,
+                evals: 5,
+                classes: vec![format!("stream_shape:{shape}"), "stream:element_error".into()],
+                ..Default::default()
+            };
+            if let Some(f) = end_failure(&r) {
+                o.failures.push(f.key("consumer", *cons).direct(json!({"form": "no_crash", "job": job})));
+            } else if !matches!(r.step(0), Out::Done) {
+                o.inconclusive = true; // a consumer this tree does not have
+            } else {
+                for k in 0..5 {
+                    let ok = matches!(r.step(2 + k), Out::Value { dump } if dump["b"] == json!(true));
+                    if !ok {
+                        let expects: Vec<(usize, Expect)> = vec![(2 + k, Expect::Dump { dump: json!({"b": true}) })];
+                        o.failures.push(
+                            Failure::new("element_error_dropped", format!("{shape}: {cons} over a stream whose element {k} is an error value must be that error; got {}\n  {}", brief(r.step(2 + k)), src.replace('\n', "\n  ")))
+                                .key("consumer", *cons)
+                                .key("shape", *shape)
+                                .direct(make_direct(&job, &expects)),
+                        );
+                        break;
+                    }
+                }
+            }
+            if (si * 31 + ci) % 9 == 0 {
+                o.sample = Some(json!({"shape": shape, "consumer": cons}));
+            }
+            outs.push(o);
+            // 2. a call limit that trips inside the stream: every limit below the need is a violation
+            let src2 = format!("fn f(x: int) -> int {{ x + 1 }}\nfn s() -> bool {{ !is_error({}) }}\n", cons.replace("{G}", &format!("({gen})")));
+            let mut base = Job::new(src2.clone()).run("s");
+            base.steps.push(Step::Counters);
+            // user calls are only counted when a call limit is configured
+            base.limits.calls = Some(1 << 40);
+            let rb = ctx.exec(&base)?;
+            let mut o = CaseOutcome {
+                key: fnv(format!("streamlimit|{shape}|{cons}").as_bytes()),
+                nontrivial: true,
+                evals: 1,
+                classes: vec![format!("stream_shape:{shape}"), "stream:call_limit".into()],
+                ..Default::default()
+            };
+            let need = match rb.step(3) {
+                Out::Counters { ud_calls, .. } => *ud_calls,
+                _ => 0,
+            };
+            if end_failure(&rb).is_some() || !matches!(rb.step(2), Out::Value { .. }) || need < 2 {
+                o.inconclusive = true;
+                outs.push(o);
+                continue;
+            }
+            for lim in 1..=need {
+                let mut j = Job::new(src2.clone()).run("s");
+                j.limits.calls = Some(lim);
+                let r = ctx.exec(&j)?;
+                o.evals += 1;
+                let violated = r.steps.iter().any(|s| matches!(s, Out::Violation { .. }));
+                if end_failure(&r).is_some() || !violated {
+                    let expects: Vec<(usize, Expect)> = vec![(2, Expect::Violation { v: "MaximumUDCall".into() })];
+                    o.failures.push(
+                        Failure::new("violation_suppressed", format!("{shape}: {cons} needs {need} user calls; with a call limit of {lim} the host must receive MaximumUDCall, got {}\n  {}", r.steps.iter().map(brief).collect::<Vec<_>>().join(" / "), src2.replace('\n', "\n  ")))
+                            .key("consumer", *cons)
+                            .key("shape", *shape)
+                            .direct(make_direct(&j, &expects)),
+                    );
+                    break;
+                }
+            }
+            outs.push(o);
+        }
+    }
+    // the templates are fixed: if (nearly) none of them compiles the harness is wrong, not the tree
+    if outs.iter().filter(|o| !o.inconclusive).count() < outs.len() / 2 {
+        return Err(HarnessError("stream templates of C06 do not compile".into()));
+    }
+    Ok(outs)
+}
+
 impl Property for C06 {
     fn id(&self) -> &'static str {
         "C06"
@@ -378,6 +512,35 @@ impl Property for C06 {
     }
     fn assumptions(&self) -> Vec<String> {
         vec!["whether arguments to the right of an erroring argument are still evaluated is not pinned down by the book; no effects are placed there".into()]
+    }
+    fn enumerate(&self, ctx: &mut Ctx, _tier: Tier) -> Result<Vec<CaseOutcome>, HarnessError> {
+        let l = lib(ctx)?;
+        let mut outs = vec![];
+        // every library function x every argument position x {ordinary, empty-container} other arguments
+        let mut cases = vec![];
+        for fi in usable_fns(l) {
+            for pos in 0..l.fns[fi].params.len() {
+                for empty in [false, true] {
+                    let seed: Vec<u8> = (0..64u64).map(|i| (crate::tape::mix(fnv(l.fns[fi].name.as_bytes()), (pos as u64) << 8 | i | (empty as u64) << 32) >> 13) as u8).collect();
+                    let mut t = Tape::new(&seed);
+                    let mut c = gen_lib_error_case(&mut t, l, Some((fi, pos, empty)));
+                    c.classes.push(format!("enumerated:{}", if empty { "empty_other_arguments" } else { "ordinary_other_arguments" }));
+                    cases.push(c);
+                }
+            }
+        }
+        for chunk in cases.chunks(40) {
+            outs.extend(run_val_batch_cfg(
+                chunk.to_vec(),
+                ctx,
+                &BatchCfg { mismatch_kind: "error_not_propagated", cpu_s: 10, timeouts_inconclusive: true, panics_inconclusive: false },
+            )?);
+        }
+        outs.extend(stream_cases(ctx)?);
+        Ok(outs)
+    }
+    fn exhaustive_part(&self) -> Option<String> {
+        Some("every library function (static overloads read from the interpreter) x every argument position x {ordinary, empty-container} other arguments; 21 stream consumers x every element position x 3 stream shapes".into())
     }
     fn families(&self, tier: Tier) -> Vec<Family> {
         let k = if tier == Tier::Quick { 1 } else { 20 };
@@ -406,7 +569,7 @@ impl Property for C06 {
                         if family == "core_errors" {
                             gen_core_error_case(&mut t)
                         } else {
-                            gen_lib_error_case(&mut t, l)
+                            gen_lib_error_case(&mut t, l, None)
                         }
                     })
                     .collect();
